@@ -16,7 +16,8 @@ Clauses == {Input.clauses[i] : i \in 1..Len(Input.clauses)}
 VARIABLES tid, l, st, verdict
 vars == <<tid, l, st, verdict>>
 
-OptEq(a, b) == IF a.none \/ b.none THEN a.none = b.none ELSE a.v = b.v
+\* (b is the specification's side; an unspecified gradient matches anything)
+OptEq(a, b) == IF IsUnspec(b) THEN TRUE ELSE IF a.none \/ b.none THEN a.none = b.none ELSE a.v = b.v
 
 \* pairs i<j of live handles that share memory according to the specification
 SharePairs(s) == {<<a, b>> \in Handles(s) \X Handles(s) : a < b /\ Shares(s, a, b)}
@@ -24,8 +25,11 @@ ObsPairs(ps) == {<<ps[i][1], ps[i][2]>> : i \in 1..Len(ps)}
 \* gradient sharing at the reference level: the gradients of two tensors share memory iff both are
 \* available and the tensors belong to one view family whose cells overlap
 GradSharePairs(s) == {<<a, b>> \in Handles(s) \X Handles(s) :
-                         a < b /\ Shares(s, a, b) /\ Root(s, a) = Root(s, b)
-                         /\ ~IsNone(ObsGrad(s, a)) /\ ~IsNone(ObsGrad(s, b))}
+                         a < b /\ Shares(s, a, b) /\ GradSrc(s, a) = GradSrc(s, b)
+                         /\ ~IsNone(ObsGrad(s, a)) /\ ~IsNone(ObsGrad(s, b))
+                         /\ ~IsUnspec(ObsGrad(s, a)) /\ ~IsUnspec(ObsGrad(s, b))}
+\* observed pairs that involve a tensor whose gradient is unspecified are not judged
+JudgedPairs(s, ps) == {p \in ps : ~IsUnspec(ObsGrad(s, p[1])) /\ ~IsUnspec(ObsGrad(s, p[2]))}
 
 On(c) == c \in Clauses
 
@@ -46,7 +50,7 @@ FirstFail(s2, e) ==
   ELSE IF On("base")  /\ \E h \in hs : o.t[h].base # ObsBase(s2, h) THEN "base"
   ELSE IF On("cr")    /\ \E h \in hs : o.t[h].crn # ~HasCr(s2, h) THEN "cr"
   ELSE IF On("grad")  /\ \E h \in hs : ~OptEq(o.t[h].g, ObsGrad(s2, h)) THEN "grad"
-  ELSE IF On("gshare") /\ ObsPairs(o.gshare) # GradSharePairs(s2) THEN "gshare"
+  ELSE IF On("gshare") /\ JudgedPairs(s2, ObsPairs(o.gshare)) # GradSharePairs(s2) THEN "gshare"
   ELSE IF On("track") /\ o.track # s2.track THEN "track"
   \* after backward(): the terminal and everything upstream has no creator and no recorded consumers (C07)
   ELSE IF On("released") /\ e.stmt.k = "backward" /\ s2.track /\
